@@ -76,6 +76,8 @@ class C18(Check):
             k = rng.choice([1, 1, 2, 3])
             docs = [G.gen_reply_good(rng, 'm%d' % (j + 1)) for j in range(k)]
             flts = [G.paths_filter(rng, d) if rng.random() < 0.7 else None for d in docs]
+            # one filter in eight spells its paths from the very top, i.e. is rooted at the reply envelope
+            flts = [('<rpc-reply>%s</rpc-reply>' % f) if (f and rng.random() < 0.125) else f for f in flts]
             stream = ''.join(d + ']]>]]>' for d in docs).encode()
             ncuts = rng.choice([0, 0, 1, 2, 4])
             cuts = sorted(set(rng.randint(1, len(stream) - 1) for _ in range(ncuts)))
